@@ -164,6 +164,9 @@ structure Tables where
   integer : Nat
   /-- `castRows[c][t]` = class of `cast_to_primitive_type(sample of class c, 'xs:<t>')` -/
   castRows : List (List Nat)
+  /-- `castNumRow[c]` = class of `cast_to_primitive_type(sample of class c, 'xs:numeric')` (xs:untypedAtomic becomes
+  xs:double) -/
+  castNumRow : List Nat := []
   deriving Repr
 
 def Tables.atomSub (tb : Tables) (a b : Nat) : Bool := (tb.subRows.getD a []).contains b
@@ -721,6 +724,14 @@ def Ty.isXsName : Ty → Bool
   | .leaf .anyType _ => true | .leaf .anySimpleType _ => true
   | _ => false
 
+/-- `cast_to_primitive_type(value, text of T)`: for an atomic type name and for xs:numeric; other types have no
+constructor, the value comes back as it is -/
+def castFor (tb : Tables) (T : Ty) (v : List Item) : List Item :=
+  match T with
+  | .leaf (.atomic t) _ => castSeq tb t v
+  | .leaf .numeric _ => v.map (fun x => match x with | .atom c => .atom (tb.castNumRow.getD c c) | x => x)
+  | _ => v
+
 /-- the value bound to a parameter declared `T`, or a type error
 (XPTY0004; FOTY0013 for a function item that cannot be atomized — the model has one "type error" code).  With the
 `fix:` 8197a40 of the pinned tree a value that does not match a type named `xs:…` and contains an array is
@@ -736,9 +747,7 @@ def convertArg (tb : Tables) (xsd11 : Bool) (T : Ty) (v : List Item) : Except Er
     | .error e => .error e
     | .ok true => .ok v1
     | .ok false =>
-      let v' := match T with
-        | .leaf (.atomic t) _ => castSeq tb t v1
-        | _ => v1
+      let v' := castFor tb T v1
       match matchSt tb xsd11 true T v' with
       | .error e => .error e
       | .ok true => .ok v'
@@ -751,9 +760,7 @@ def convertResult (tb : Tables) (xsd11 : Bool) (T : Ty) (v : List Item) : Except
   | .error e => .error e
   | .ok true => .ok v
   | .ok false =>
-    let v' := match T with
-      | .leaf (.atomic t) _ => castSeq tb t v
-      | _ => v
+    let v' := castFor tb T v
     match matchSt tb xsd11 true T v' with
     | .error e => .error e
     | .ok true => .ok v'
